@@ -591,6 +591,21 @@ def run_shard(shard, tier, seed, acc) -> None:
                 _report(acc, case_str(a, sk, n, seed), ["str", sk, n])
                 acc.ev()
                 acc.nt_counted()
+        # text that is not in a Unicode normal form (the writer must encode the code points it was given, not an equivalent string)
+        for i_, txt in enumerate(["e\u0301", "\u212b", "\u2126x", "\u1100\u1161\u11a8", "a\u0323\u0307", "\ufb01", "\u00e9e\u0301", "\U0002f800", "\ufeffabc", "a\u0000b"]):
+            exp = der.tlv(0, False, 12, txt.encode("utf-8"))
+            acc.ev()
+            acc.nt_counted()
+            try:
+                w = a.ASN1Writer()
+                w.write_utf8_string(txt)
+                got = bytes(w.get_data())
+                back = a.ASN1Reader(exp).read_utf8_string()
+            except Exception as e:  # noqa: BLE001
+                acc.violate(f"utf8-form.exc.{type(e).__name__}", ["utf8-form", i_], {"exc": repr(e)})
+                continue
+            if got != exp or back != txt:
+                acc.violate("utf8-form.bytes", ["utf8-form", i_], {"text": txt.encode("unicode_escape").decode(), "got": got.hex(), "expected": exp.hex(), "read_back_equal": back == txt})
         acc.sample({"string": "utf8", "content_len": 65537})
     elif kind == "tag":
         n = 0
@@ -694,6 +709,14 @@ def replay(case, seed, acc) -> None:
         _report(acc, case_str(a, case[1], case[2], seed), case)
     elif k == "tag":
         _report(acc, case_tag(a, *case[1:]), case)
+    elif k == "utf8-form":
+        run_shard(["str"], "quick", seed, acc)
+        for kk in list(acc.violations):
+            acc.violations[kk] = [e for e in acc.violations[kk] if e["case"] == case]
+            if not acc.violations[kk]:
+                del acc.violations[kk]
+        acc.violation_count = sum(len(v) for v in acc.violations.values())
+        return
     elif k == "tree":
         _report(acc, case_tree(a, eval(case[1])), case)  # noqa: S307 - our own repr
     elif k == "concat":
